@@ -371,6 +371,16 @@ func identityString(id goidentity.Identity) string {
 	return fmt.Sprintf("%s %s %d", List(cs), XS(c.Domain()), Micros(c.ValidUntil()))
 }
 
+// identityExtra: what an application reads from the identity besides the principal: the user name (the PAC's account
+// name when there is one), display name, whether it counts as authenticated, the number of authorization attributes
+func identityExtra(id goidentity.Identity) string {
+	c, ok := id.(*credentials.Credentials)
+	if !ok {
+		return fmt.Sprintf("identity-of-type-%T", id)
+	}
+	return fmt.Sprintf("user=%s display=%s authenticated=%s attributes=%d", XS(c.UserName()), XS(c.DisplayName()), B(c.Authenticated()), len(c.Attributes()))
+}
+
 const (
 	hdrAcceptCompleted = "Negotiate oRQwEqADCgEAoQsGCSqGSIb3EgECAg=="
 	hdrReject          = "Negotiate oQcwBaADCgEC"
@@ -436,11 +446,12 @@ func runSpCase(t *testing.T, m *Model, rng *RNG, c spCase, replay bool, shared h
 		}
 		once := func() string {
 			ran := 0
-			var seen string
+			var seen, seenX string
 			inner := http.HandlerFunc(func(w http.ResponseWriter, r *http.Request) {
 				ran++
 				if idn := goidentity.FromHTTPRequestContext(r); idn != nil {
 					seen = identityString(idn)
+					seenX = identityExtra(idn)
 				} else {
 					seen = "no-identity"
 				}
@@ -489,6 +500,9 @@ func runSpCase(t *testing.T, m *Model, rng *RNG, c spCase, replay bool, shared h
 					var back credentials.Credentials
 					if e := back.Unmarshal(fs.newVal); e != nil || identityString(&back) != seen {
 						extra = "the credentials stored in the new session are not the identity that was served"
+					} else if bx := identityExtra(&back); bx != seenX {
+						// (what the requests of the session will be served as: user name, display name, groups included)
+						extra = "the identity restored from the new session differs from the one that was served: served " + seenX + ", session " + bx
 					}
 				}
 				if !fresh && wa != "" {
@@ -585,6 +599,10 @@ func c03Defects() []spDefect {
 		{"ap-reqhost", func(c *spCase, r *RNG) { c.ap.reqHost = true }},
 		{"ap-clientaddr-configured", func(c *spCase, r *RNG) { c.ap.clientAddr = &v4b }},
 		{"ap-pac-valid", func(c *spCase, r *RNG) { c.ap.pac = "valid" }},
+		// ... with a session manager: what is stored for the requests of the session is the identity that was served
+		// (the PAC's account name is not the ticket's client name string)
+		{"ap-pac-valid+session", func(c *spCase, r *RNG) { c.ap.pac = "valid"; c.session = "getfails" }},
+		{"ap-pac-valid-second+session", func(c *spCase, r *RNG) { c.ap.pac = "valid-second"; c.session = "empty" }},
 		{"ap-pac-badsig", func(c *spCase, r *RNG) { c.ap.pac = "badsig" }},
 		{"ap-tktrealm", func(c *spCase, r *RNG) { c.ap.tktRealm = "OTHER.REALM" }},
 		{"ap-krbtgt", func(c *spCase, r *RNG) { c.ap.sname = []string{"krbtgt", "TEST.GOKRB5"} }},
